@@ -10,7 +10,7 @@ from ..errors import AnalysisError
 from ..model import ClassInfo, FuncInfo, dotted, mangle, src, walk_scope
 from ..persist import Plumbing
 from ..report import Context
-from ..util import attr_store_sites, calls_in, is_self_attr, node_for, path_text
+from ..util import attr_store_sites, calls_in, is_self_attr, kwarg, node_for, path_text
 from . import c04, c14
 
 LEVEL_TEXT = (
@@ -26,7 +26,33 @@ LEVEL_TEXT = (
 )
 TECHNIQUE = "effect analysis (module/class/attribute writes), loop-carried-local detection on the CFG, view-aliasing of attributes, plumbing composition"
 
-SESSION_SCOPED = {"_stopped", "_agent_thread"}
+SESSION_METHODS = ("start_session", "end_session", "session")
+
+
+def _session_local_readers(prog, cls) -> set[str]:
+    """Methods whose whole life lies inside one session: the session methods themselves and the thread entry points they create (with callees)."""
+    out = {m.qualname for k in prog.mro(cls) for n_, m in k.methods.items() if n_ in SESSION_METHODS}
+    work = []
+    for k in prog.mro(cls):
+        for n_, m in k.methods.items():
+            if n_ in SESSION_METHODS:
+                for c in calls_in(m.node):
+                    if (dotted(c.func) or "").split(".")[-1] == "Thread":
+                        tgt = kwarg(c, "target")
+                        if isinstance(tgt, ast.Attribute) and isinstance(tgt.value, ast.Name) and tgt.value.id == m.self_name:
+                            t = prog.lookup_method(cls, tgt.attr)
+                            if t is not None:
+                                work.append(t)
+    while work:
+        f = work.pop()
+        if f.qualname in out:
+            continue
+        out.add(f.qualname)
+        for c in calls_in(f.node):
+            for t in prog.resolve_call(f, c):
+                if isinstance(t, FuncInfo) and t.cls is not None and t.cls in prog.mro(cls):
+                    work.append(t)
+    return out
 
 
 def run(ctx: Context) -> None:
@@ -235,9 +261,14 @@ def r2d_session_scope(ctx: Context) -> None:
                 for t in targets:
                     for el in ([t] if not isinstance(t, (ast.Tuple, ast.List)) else t.elts):
                         if is_self_attr(el, m.self_name):
-                            ok = el.attr in SESSION_SCOPED  # type: ignore[union-attr]
-                            ctx.check(ok, "R2.session-scope", f"{c.name}.{name}:{el.attr}", f"{c.name}.{name} writes the session-scoped attribute {el.attr}",  # type: ignore[union-attr]
-                                      f"`{src(x)[:80]}` in {c.name}.{name}: state that should span the whole calibration is reset at a session boundary, "
+                            # session-scoped = read only by code whose life lies inside one session (session methods, the thread they start);
+                            # an attribute that get_next_sampler / update / ... also read carries state across batches and must survive a session boundary
+                            local = _session_local_readers(prog, c)
+                            readers = sorted({f.qualname.split(":")[1] for k in prog.mro(c) for f in k.methods.values() if f.qualname not in local and f.name != "__init__"
+                                              for a in ast.walk(f.node) if isinstance(a, ast.Attribute) and isinstance(a.ctx, ast.Load) and a.attr == el.attr  # type: ignore[union-attr]
+                                              and isinstance(a.value, ast.Name) and a.value.id == f.self_name})
+                            ctx.check(not readers, "R2.session-scope", f"{c.name}.{name}:{el.attr}", f"{c.name}.{name} writes {el.attr}, which only session-local code reads",  # type: ignore[union-attr]
+                                      f"`{src(x)[:80]}` in {c.name}.{name}: state that {', '.join(readers[:3])} read(s) across batches is reset at a session boundary, "
                                       "so batches split over several calibrate() calls are scheduled differently from one call", m, x)
 
 
